@@ -39,6 +39,8 @@ var zzC02Templates = []string{
 	/* 15 */ `<!DOCTYPE HTML PUBLIC "-//W3C//DTD HTML 4.01 Transitional//EN"><html><head><title>T</title></head><body><p>para<table><tr><td>cell</td></tr></table></body></html>`,
 	/* 16 */ `<!DOCTYPE html SYSTEM "about:legacy-compat"><html><head></head><body><p>doc</p></body></html>`,
 	// text that consists of non-ASCII space characters only is text
+	/* 19 */ "<!DOCTYPE html>\n<html lang=\"en\"><head><title>T</title></head><body class=\"home\"><p>a &amp; b</p></body></html>\n<!-- generated -->\n",
+	/* 20 */ "<html><body id=\"b\"><p>x</p></body></html>\n\n   \n",
 	/* 18 */ `<p title="naïve — “quoted” 日本語">Füße &amp; Ærøskøbing – 東京 🙂 &eacute;&#x1F600;</p><a href="/søk?q=blåbær&amp;x=ü">lënk</a>`,
 	/* 17 */ `<table><tr><td>&nbsp;</td><td>a&nbsp;b</td></tr></table><p>&nbsp;</p><span>&emsp;</span><ul><li>&#160;&#xA0;</li></ul>`,
 }
